@@ -1053,7 +1053,7 @@ class MultiVector(object):
         # subspace except for the ones that make the outer
         # product vanish
 
-        J = A
+        J = A._newMV(np.array(A.value))  # copy: clean() works in place
 
         for ei in Bbasis:
             J.clean()
